@@ -57,7 +57,8 @@ def replay(verdict, exe, res, seed=0, tag="lex", sigprefix="lex", vary=True):
                 text = "".join(sub.get(ch, ch) for ch in text)
             lines = schema_lines("S", schema)
             lines += ["env set V %s" % enc("w{"), "env set E %00", "env unset U", "init c1 S 0",
-                      "parsebuf c1 %s" % enc(text), "print c1", "parsebuf c1 %s" % enc("s = again"), "free c1"]
+                      "parsebuf c1 %s" % enc(text), "print c1", "parsebuf c1 %s" % enc("s = again"),
+                      "init c2 S 0", "parsebuf c2 %s" % enc(text + "\n="), "free c2", "free c1"]
             bid = "x%d" % n
             n += 1
             scripts.append((bid, "\n".join(lines)))
@@ -92,6 +93,17 @@ def replay(verdict, exe, res, seed=0, tag="lex", sigprefix="lex", vary=True):
                 d = []
                 cmp_sec(conv_obs(b["obs"], sub), line["ctx"].get("c1"), "", d, {"mod": "none", "cmt": False})
                 probs += [("value", x) for x in d]
+        # the line counter: an error token placed on a fresh line after the text is reported there (C06)
+        if st == "ok" and len(pl) > 2:
+            l3 = pl[2]
+            if l3["ret"] != 1 or not l3["diag"]:
+                probs.append(("line", "text + newline + '=' was not rejected with a diagnostic"))
+            elif l3["diag"][0]["line"] != b["line"] + 1:
+                probs.append(("line", "a token on the line after the text is reported on line %d, expected %d" % (l3["diag"][0]["line"], b["line"] + 1)))
+        if st == "fail" and line["diag"]:
+            want_line = b["diagline"]
+            if want_line and line["diag"][0]["line"] != want_line:
+                probs.append(("line", "first diagnostic on line %d, expected %d" % (line["diag"][0]["line"], want_line)))
         # afterwards the context is still usable: a following parse behaves normally (C02/C08)
         if pl[1]["ret"] != 0:
             probs.append(("usable", "a following parse of 's = again' into the same context failed"))
